@@ -12,7 +12,9 @@ Bounded-exhaustive enumeration (mc.product.full + mc.core.pmap, per-case timeout
   x formulation variant                                  IDF(normalize_constraints in {False, True}),
                                                           MDF(MDAChain, inner MDA in {Jacobi, Gauss-Seidel, Newton-Raphson}),
                                                           DisciplinaryOpt (systems without strong couplings);
-                                                          thorough: IDF(start_at_equilibrium), MDF(main MDA = Gauss-Seidel)
+                                                          MDF(main MDA in {MDAJacobi, MDAGaussSeidel; MDANewtonRaphson, MDAGSNewton
+                                                          on fully cyclic graphs}) on the same design space (couplings included);
+                                                          thorough: IDF(start_at_equilibrium)
   x 3 design points, each at the consistent couplings y*(x) and at an inconsistent y* + delta (IDF).
 
 The thorough tier is this whole product; the quick tier keeps every order for the two base variants but builds the complete
@@ -54,6 +56,9 @@ Oracle boundaries (rule 1)
   does not say which is right).  Self-coupled disciplines and variables with two producers are not in the alphabet.
 * Non-convergence of an inner MDA is reported as its own invariant (C06 owns convergence); values are then not compared.
 * IDF with ``n_processes > 1`` (functions built on an MDOParallelChain) is not enumerated (C09 / C13 own the chains).
+* Main MDAs of MDF: MDANewtonRaphson / MDAGSNewton only where gemseo supports them (no weakly coupled discipline);
+  MDAQuasiNewton is not enumerated (SciPy's stop criterion, ``normed_residual`` not maintained: no derivable bound); an
+  MDASequential counts as converged when one of its sub-MDAs reports a normed residual <= tolerance.
 * same-optimum: only optimal *values* are compared (the minimiser need not be unique: the objective of one discipline does
   not see every variable); the allowance 1e-6 (1 + |f|) for the accuracy SLSQP reaches with ftol = xtol = 1e-12 is declared,
   not derived (a formulation error moves these optima by >= 1e-3); cases whose optimum sits on a coupling bound of IDF's
@@ -513,7 +518,10 @@ def make_formulation(ref: Ref, fv: list, case: dict, order, obj: str, cons: list
         if fv[1] == "MDAChain":
             form = g["MDF"](discs, obj, ds, main_mda_name="MDAChain", main_mda_settings=mda_settings(fv[2]))
         else:
-            form = g["MDF"](discs, obj, ds, main_mda_name=fv[1], main_mda_settings={"tolerance": TOL, "max_mda_iter": MAX_ITER})
+            st = {"tolerance": TOL, "max_mda_iter": MAX_ITER}
+            if fv[1] in ("MDAJacobi", "MDANewtonRaphson"):
+                st["n_processes"] = 1
+            form = g["MDF"](discs, obj, ds, main_mda_name=fv[1], main_mda_settings=st)
     else:
         form = g["DisciplinaryOpt"]([discs[i] for i in ref.exec], obj, ds)
     for c in cons:
@@ -869,9 +877,11 @@ def _check_mdf(ref, fv, form, prob, names, funcs, refs, viol, reports):
         if fv[0] == "MDF":
             mdas = list(getattr(form.mda, "inner_mdas", [])) or ([form.mda] if fv[1] != "MDAChain" else [])
             for m in mdas:
-                if not m.normed_residual <= TOL:
+                # an MDASequential (MDAGSNewton) stops as soon as one of its sub-MDAs has converged
+                resid = min([s_.normed_residual for s_ in getattr(m, "mda_sequence", [])] or [m.normed_residual])
+                if not resid <= TOL:
                     converged = False
-                    viol("inner-mda-converged", fv, None, f"point {r['k']}: {type(m).__name__} stopped at normed residual {m.normed_residual:.3e} after {len(m.residual_history)} iterations (tolerance {TOL})")
+                    viol("inner-mda-converged", fv, None, f"point {r['k']}: {type(m).__name__} stopped at normed residual {resid:.3e} after {len(m.residual_history)} iterations (tolerance {TOL})")
         if not converged:
             status = "mda-not-converged"
             continue
@@ -1023,7 +1033,35 @@ def orders_for(system: str, full: bool):
     return covering_orders(names, 3)
 
 
-def forms_for(system: str, level: str):
+def weakly_coupled_disciplines(system: str) -> bool:
+    """Whether some discipline is outside every cycle (independent closure; such systems have feed-forward couplings)."""
+    discs = SYSTEMS[system]["discs"]
+    n = len(discs)
+    reach = [[i == j or bool(set(discs[i]["outs"]) & set(discs[j]["ins"])) for j in range(n)] for i in range(n)]
+    for k in range(n):
+        for i in range(n):
+            for j in range(n):
+                reach[i][j] = reach[i][j] or (reach[i][k] and reach[k][j])
+    return any(not any(i != j and reach[i][j] and reach[j][i] for j in range(n)) for i in range(n))
+
+
+def main_mda_forms(system: str):
+    """MDF with a main MDA other than MDAChain, built like every other variant on the design space shared with IDF.
+
+    MDANewtonRaphson and MDAGSNewton refuse systems with weakly coupled disciplines (documented ValueError), so they are
+    enumerated only on the fully cyclic graphs.  Oracle boundary: MDAQuasiNewton is not enumerated (it stops on SciPy's own
+    criterion and does not maintain ``normed_residual``, so no error bound can be derived from the requested tolerance).
+    """
+    out = [["MDF", "MDAJacobi", None], ["MDF", "MDAGaussSeidel", None]]
+    if not weakly_coupled_disciplines(system):
+        out += [["MDF", "MDANewtonRaphson", None], ["MDF", "MDAGSNewton", None]]
+    return out
+
+
+MAIN_MDA_SYSTEMS_QUICK = [s for s in SYSTEMS if weakly_coupled_disciplines(s)] + ["2-strong"]
+
+
+def forms_for(system: str, level: str, mains: bool = False):
     """Formulation variants of one case.  level: "default" (gemseo's defaults) | "all" | "extra" (thorough additions)."""
     strong = "exec" not in SYSTEMS[system]
     if level == "default":
@@ -1033,7 +1071,9 @@ def forms_for(system: str, level: str):
     if not strong:
         out.append(["DOPT"])
     if level == "extra":
-        out += [["IDF", True, True], ["MDF", "MDAGaussSeidel", None]]
+        out.append(["IDF", True, True])
+    if mains or level == "extra":
+        out += main_mda_forms(system)
     return out
 
 
@@ -1044,7 +1084,10 @@ def cases(thorough: bool):
               complete (IDF normalize x MDF inner MDA x DisciplinaryOpt) on the covering orders and reduced to gemseo's defaults
               (IDF normalized, MDF/Jacobi) on the other orders; the other harness variants on 3 orders, complete formulation product.
     thorough: every variant x every order (5 variables: all 120 for the base variants, covering set otherwise) x complete
-              formulation product, plus IDF(start_at_equilibrium) and MDF(main MDA = MDAGaussSeidel) on the covering orders.
+              formulation product, plus IDF(start_at_equilibrium) and MDF(main MDA other than MDAChain) on the covering orders.
+    both:     MDF with a main MDA other than MDAChain (``main_mda_forms``): quick = base variants x first 3 covering orders on every graph
+              with a weakly coupled discipline and on 2-strong; the weak couplings then stay inputs of the MDA, so nothing but
+              ``MDF._remove_couplings_from_ds`` removes them from the design space shared with IDF.
     """
     for system in SYSTEMS:
         n = len(SYSTEMS[system]["discs"])
@@ -1065,8 +1108,9 @@ def cases(thorough: bool):
                         level = "extra" if tuple(order) in ckeys else "all"
                     else:
                         level = "all" if (not base or tuple(order) in (ckeys if len(names) <= 4 else {tuple(o) for o in covering[:3]})) else "default"
+                    mains = not thorough and base and system in MAIN_MDA_SYSTEMS_QUICK and order in covering[:3]
                     yield {"system": system, "variant": variant, "obj": obj, "cons": cons, "order": order,
-                           "formulations": forms_for(system, level),
+                           "formulations": forms_for(system, level, mains),
                            "check_required": k == 0 and variant == "affine" and cons == ["g1"]}
 
 
@@ -1106,12 +1150,13 @@ def run(ctx):
         "x 3 design points x {consistent, inconsistent} couplings.  " + (
             "thorough: every order (5-variable systems: all 120 for the two base variants, the strength-3 sequence-covering set for the others) x complete "
             "formulation product (IDF normalize in {F,T}; MDF/MDAChain inner MDA in {Jacobi, Gauss-Seidel, Newton}; DisciplinaryOpt on weakly coupled systems), "
-            "plus IDF(start_at_equilibrium) and MDF(main MDA = MDAGaussSeidel) on the covering orders, plus SLSQP optima of MDF / IDF / DisciplinaryOpt on the convex members"
+            "plus IDF(start_at_equilibrium) and MDF(main MDA in {MDAJacobi, MDAGaussSeidel; MDANewtonRaphson, MDAGSNewton on fully cyclic graphs}) on the covering orders, plus SLSQP optima of MDF / IDF / DisciplinaryOpt on the convex members"
             if ctx.thorough else
             "quick: base variants (affine, nonlinear) x all 24 orders of the 4-variable systems / the strength-3 sequence-covering orders of the 5-variable systems, "
             "with the complete formulation product (IDF normalize in {F,T}; MDF/MDAChain inner MDA in {Jacobi, Gauss-Seidel, Newton}; DisciplinaryOpt on weakly coupled "
             "systems) on the covering orders (5 variables: the first 3) and gemseo's defaults (IDF normalized, MDF/Jacobi, DisciplinaryOpt) on the other orders; the 4 other "
-            "variants on 3 orders x complete formulation product; 3-discipline systems: 9 single-constraint choices (+1 two-constraint choice on 4-variable systems)"
+            "variants on 3 orders x complete formulation product; MDF with main MDA in {MDAJacobi, MDAGaussSeidel; + MDANewtonRaphson, MDAGSNewton on 2-strong} on the first 3 covering "
+            "orders of the base variants of every graph with a weakly coupled discipline and of 2-strong (design space shared with IDF, couplings included); 3-discipline systems: 9 single-constraint choices (+1 two-constraint choice on 4-variable systems)"
         ) + ".  One evaluation = one formulation object built and interrogated.  It is non-trivial when at least one of "
         "its functions reads design-vector components that are not a prefix of the design vector in order (input mask != identity)",
         "exhaustive": True,
